@@ -127,3 +127,64 @@ pub fn resolve_events(evs: &[EvSpec], sp: &Span) -> Vec<EvSpec> {
 pub fn basic_opts(method: Meth, tol: &(Tol, Tol)) -> RunOpts {
     RunOpts { method, rtol: tol.0.clone(), atol: tol.1.clone(), first_step: None, max_step: None, max_steps: None, t_eval: None, dense: false }
 }
+
+// ---------------------------------------------------------------------------------------------
+// two-phase placement of times relative to the solver's own accepted-step grid
+
+#[derive(Serialize, Deserialize, Clone, Debug)]
+pub enum Place {
+    /// fraction of the span
+    Frac(f64),
+    /// grid point number floor(k/65536 * m), shifted by DELTAS[delta] in the direction of integration
+    Near { k: u16, delta: u8 },
+    /// inside step k at relative position f
+    Mid { k: u16, f: f64 },
+    Start,
+    End,
+}
+
+pub const DELTAS: [f64; 9] = [0.0, 1e-13, -1e-13, 5e-13, -5e-13, 2e-12, -2e-12, 1e-9, -1e-9];
+
+pub fn place() -> impl Strategy<Value = Place> {
+    prop_oneof![
+        3 => fr(0.0, 1.0).prop_map(Place::Frac),
+        5 => (any::<u16>(), 0u8..9).prop_map(|(k, delta)| Place::Near { k, delta }),
+        3 => (any::<u16>(), fr(0.02, 0.98)).prop_map(|(k, f)| Place::Mid { k, f }),
+        1 => Just(Place::Start),
+        1 => Just(Place::End),
+    ]
+}
+
+pub fn places(maxlen: usize) -> impl Strategy<Value = Vec<Place>> {
+    proptest::collection::vec(place(), 0..=maxlen)
+}
+
+/// grid: accepted-step end points of the plain run (grid[0] = x0)
+pub fn resolve_places(pl: &[Place], grid: &[f64], sp: &Span) -> Vec<f64> {
+    let d = sp.dir();
+    let m = grid.len();
+    let clampf = |t: f64| if d > 0.0 { t.max(sp.x0).min(sp.xend) } else { t.min(sp.x0).max(sp.xend) };
+    let mut v: Vec<f64> = pl
+        .iter()
+        .map(|p| match p {
+            Place::Frac(f) => clampf(sp.x0 + f * (sp.xend - sp.x0)),
+            Place::Near { k, delta } => {
+                let i = crate::util::pick(*k, m.max(1));
+                let g = if m > 0 { grid[i] } else { sp.x0 };
+                clampf(g + d * DELTAS[*delta as usize % 9] * (1.0f64).max(g.abs() / 64.0))
+            }
+            Place::Mid { k, f } => {
+                if m < 2 {
+                    clampf(sp.x0 + f * (sp.xend - sp.x0))
+                } else {
+                    let i = crate::util::pick(*k, m - 1);
+                    clampf(grid[i] + f * (grid[i + 1] - grid[i]))
+                }
+            }
+            Place::Start => sp.x0,
+            Place::End => sp.xend,
+        })
+        .collect();
+    v.sort_by(|a, b| (a * d).partial_cmp(&(b * d)).unwrap());
+    v
+}
